@@ -1,7 +1,4 @@
 pending = {
- "C03": "claimed in DESIGN.md; the check is not built yet in this commit",
- "C09": "claimed in DESIGN.md; the check is not built yet in this commit",
  "C13": "claimed (part) in DESIGN.md; the check is not built yet in this commit",
- "C18": "claimed in DESIGN.md; the check is not built yet in this commit",
  "C20": "claimed in DESIGN.md; the check is not built yet in this commit",
 }
